@@ -65,6 +65,7 @@ type C11Mutator struct {
 type C11Scenario struct {
 	Mem        bool            `json:"mem,omitempty"`    // in-memory swamp
 	Reload     bool            `json:"reload,omitempty"` // close + re-summon after seeding (records are then file-backed)
+	Cold       bool            `json:"cold,omitempty"`   // no warm-up: the first build of every index / bucket races the concurrent phase
 	Recs       []C11Rec        `json:"recs"`
 	PreDeletes []int           `json:"pre_deletes,omitempty"` // deleted (acknowledged) before the concurrent phase
 	Claimers   []C11Claimer    `json:"claimers"`
@@ -306,6 +307,7 @@ func genC11(mode c11Mode, open c11Open) func(t *rapid.T) C11Scenario {
 		var s C11Scenario
 		s.Mem = rapid.IntRange(0, 3).Draw(t, "mem") == 0
 		s.Reload = !s.Mem && rapid.IntRange(0, 2).Draw(t, "reload") == 0
+		s.Cold = rapid.IntRange(0, 2).Draw(t, "cold") == 0
 		nrec := rapid.IntRange(5, 60).Draw(t, "nrec")
 		if rapid.IntRange(0, 2).Draw(t, "small") > 0 {
 			nrec = 5 + nrec%16
@@ -680,20 +682,22 @@ func runC11Inner(s C11Scenario) pbt.Outcome {
 		st.Exists = false
 		init[k] = st
 	}
-	// --- warm-up: build every index and bucket before the concurrent phase (a first build
-	// concurrent with writes is another property's business and can kill the process)
-	for _, it := range []hydrapb.IndexType_Type{hydrapb.IndexType_KEY, hydrapb.IndexType_EXPIRATION_TIME, hydrapb.IndexType_CREATION_TIME} {
-		if _, err := e.r.G.GetByIndex(e.ctx, &hydrapb.GetByIndexRequest{IslandID: isl, SwampName: sn, IndexType: it, Limit: 1}); err != nil {
-			return pbt.Failf("harness", "warm-up GetByIndex: %v", err)
+	// --- warm-up (unless the scenario is cold): build every index and bucket before the concurrent phase.
+	// Cold scenarios leave the first builds to the racing requests themselves.
+	if !s.Cold {
+		for _, it := range []hydrapb.IndexType_Type{hydrapb.IndexType_KEY, hydrapb.IndexType_EXPIRATION_TIME, hydrapb.IndexType_CREATION_TIME} {
+			if _, err := e.r.G.GetByIndex(e.ctx, &hydrapb.GetByIndexRequest{IslandID: isl, SwampName: sn, IndexType: it, Limit: 1}); err != nil {
+				return pbt.Failf("harness", "warm-up GetByIndex: %v", err)
+			}
 		}
-	}
-	// (buckets are built through PatchExpired: its selection predicate rejects every record
-	// when the looked-up value is absent, so the warm-up itself changes nothing)
-	for _, l := range []Leg{{Field: "status", Op: "eq", S: "__none__"}, {Field: "owner", Op: "eq", S: "__none__"}, {Field: "n", Op: "eq", I: -777}} {
-		resp, err := e.r.G.PatchExpiredTreasures(e.ctx, &hydrapb.PatchExpiredTreasuresRequest{IslandID: isl, SwampName: sn, HowMany: 1,
-			Ops: opsProto([]POp{{Kind: "set-owner", S: "warm-up"}}), Filters: (&Filt{Legs: []Leg{l}}).proto()})
-		if err != nil || resp == nil || len(resp.Patched) != 0 {
-			return pbt.Failf("harness", "warm-up PatchExpired: %v %v", resp, err)
+		// (buckets are built through PatchExpired: its selection predicate rejects every record
+		// when the looked-up value is absent, so the warm-up itself changes nothing)
+		for _, l := range []Leg{{Field: "status", Op: "eq", S: "__none__"}, {Field: "owner", Op: "eq", S: "__none__"}, {Field: "n", Op: "eq", I: -777}} {
+			resp, err := e.r.G.PatchExpiredTreasures(e.ctx, &hydrapb.PatchExpiredTreasuresRequest{IslandID: isl, SwampName: sn, HowMany: 1,
+				Ops: opsProto([]POp{{Kind: "set-owner", S: "warm-up"}}), Filters: (&Filt{Legs: []Leg{l}}).proto()})
+			if err != nil || resp == nil || len(resp.Patched) != 0 {
+				return pbt.Failf("harness", "warm-up PatchExpired: %v %v", resp, err)
+			}
 		}
 	}
 
@@ -1334,6 +1338,9 @@ func judgeC11(s C11Scenario, init map[string]kstate, cres []claimRes, mres []mut
 	}
 	if s.Reload {
 		cls["file-backed-records"] = true
+	}
+	if s.Cold {
+		cls["cold-indexes-and-buckets"] = true
 	}
 	out.NonTrivial = overlap && candMutated
 	for c := range cls {
